@@ -125,4 +125,5 @@ Definition run (name : string) (a : sx) : sx :=
   else if is "c11.stress" then H11.run_stress a
   else if is "c16.htx" then H16.run_htx a
   else if is "c16.hmsg" then H16.run_hmsg a
+  else if is "c05.hist" then H05.run_hist a
   else sx_err "unknown case kind".
